@@ -947,10 +947,14 @@ func c08Guarded(w *World, r *Report, sp interface{ String() string }) {
 
 func c08NoNestedAcquire(w *World, r *Report) {
 	r.Rule("R-C08-6", "no nested acquisition: while a method of symbols.SymbolTable holds the table's lock (between its RLock/Lock and the matching release, to the end of the function when the release is deferred) it calls on that same table no method that acquires the lock", 8)
+	noNestedAcquire(w, r, "R-C08-6", "internal/language/symbols", "SymbolTable")
+}
 
-	sp := w.pkg("internal/language/symbols")
+// noNestedAcquire is the rule for one type that carries its own mutex.
+func noNestedAcquire(w *World, r *Report, ruleID, pkgRel, typeName string) {
+	sp := w.pkg(pkgRel)
 	if sp == nil {
-		r.Anchor("R-C08-6", "package internal/language/symbols")
+		r.Anchor(ruleID, "package "+pkgRel)
 
 		return
 	}
@@ -958,7 +962,7 @@ func c08NoNestedAcquire(w *World, r *Report) {
 	isTable := func(t types.Type) bool {
 		n := namedOf(t)
 
-		return n != nil && n.Obj().Name() == "SymbolTable" && n.Obj().Pkg() == sp.Types
+		return n != nil && n.Obj().Name() == typeName && n.Obj().Pkg() == sp.Types
 	}
 
 	fns := w.srcFuncs(sp)
@@ -970,9 +974,9 @@ func c08NoNestedAcquire(w *World, r *Report) {
 		}
 
 		switch callID(c.Common()) {
-		case "internal/language/symbols.SymbolTable.RLock", "internal/language/symbols.SymbolTable.Lock":
+		case pkgRel + "." + typeName + ".RLock", pkgRel + "." + typeName + ".Lock":
 			return c.Call.Args[0], true
-		case "sync.RWMutex.RLock", "sync.RWMutex.Lock":
+		case "sync.RWMutex.RLock", "sync.RWMutex.Lock", "sync.Mutex.Lock":
 			// s.mutex.Lock(): the receiver is &s.mutex
 			if fa, isFA := c.Call.Args[0].(*ssa.FieldAddr); isFA && isTable(fa.X.Type()) {
 				return fa.X, true
@@ -989,9 +993,9 @@ func c08NoNestedAcquire(w *World, r *Report) {
 		}
 
 		switch callID(c.Common()) {
-		case "internal/language/symbols.SymbolTable.RUnlock", "internal/language/symbols.SymbolTable.Unlock":
+		case pkgRel + "." + typeName + ".RUnlock", pkgRel + "." + typeName + ".Unlock":
 			return c.Call.Args[0], true
-		case "sync.RWMutex.RUnlock", "sync.RWMutex.Unlock":
+		case "sync.RWMutex.RUnlock", "sync.RWMutex.Unlock", "sync.Mutex.Unlock":
 			if fa, isFA := c.Call.Args[0].(*ssa.FieldAddr); isFA && isTable(fa.X.Type()) {
 				return fa.X, true
 			}
@@ -1011,7 +1015,7 @@ func c08NoNestedAcquire(w *World, r *Report) {
 			}
 
 			switch callID(c.Common()) {
-			case "internal/language/symbols.SymbolTable.RLock", "internal/language/symbols.SymbolTable.Lock":
+			case pkgRel + "." + typeName + ".RLock", pkgRel + "." + typeName + ".Lock":
 				v = c.Call.Args[0]
 			default:
 				return v
@@ -1059,13 +1063,11 @@ func c08NoNestedAcquire(w *World, r *Report) {
 	}
 
 	for _, fn := range fns {
-		if fn.Signature.Recv() == nil || len(fn.Params) == 0 || !isTable(fn.Params[0].Type()) {
-			continue
-		}
-
-		switch fn.Name() {
-		case "RLock", "Lock", "RUnlock", "Unlock":
-			continue
+		if fn.Signature.Recv() != nil && len(fn.Params) > 0 && isTable(fn.Params[0].Type()) {
+			switch fn.Name() {
+			case "RLock", "Lock", "RUnlock", "Unlock":
+				continue
+			}
 		}
 
 		var acqs []ssa.Instruction
@@ -1121,9 +1123,9 @@ func c08NoNestedAcquire(w *World, r *Report) {
 			}
 
 			if held != "" {
-				r.Violate("R-C08-6", key, w.pos(in.Pos()), cf.Name()+" takes the lock of the table it is called on, and this call is made on a table whose lock this function acquired at "+held+" and still holds: a second RLock behind a waiting writer (or a second Lock) never returns, and every goroutine that needs the table queues behind it")
+				r.Violate(ruleID, key, w.pos(in.Pos()), cf.Name()+" takes the lock of the value it is called on, and this call is made on a value whose lock this function acquired at "+held+" and still holds: a second RLock behind a waiting writer (or a second Lock) never returns, and every goroutine that needs the table queues behind it")
 			} else {
-				r.Discharge("R-C08-6", key, w.pos(in.Pos()), "called on another table, or after the lock was released")
+				r.Discharge(ruleID, key, w.pos(in.Pos()), "called on another table, or after the lock was released")
 			}
 		})
 	}
